@@ -1743,8 +1743,9 @@ fn c06(tier: Tier) -> i32 {
     for (ci, chunk) in chains.chunks(per).enumerate() {
         let mut files: BTreeMap<String, Vec<(String, Val)>> = BTreeMap::new();
         for (k, (refs, leaf)) in chunk.iter().enumerate() {
-            // skip chains the statement rejects or leaves open, and the recorded fk-inside-component finding
-            if refs.contains(&Refk::InComp) {
+            // skip chains the statement rejects or leaves open, and the recorded fk-inside-component finding;
+            // formatted variables need typed values (the C18 probes' business): L1 only
+            if refs.contains(&Refk::InComp) || *leaf == Leaf::Formatted {
                 continue;
             }
             let perm: Vec<usize> = (0..=refs.len()).collect();
